@@ -47,9 +47,12 @@ def nth_perm(n, idx):
     return out
 
 
-def perm_case(n, i, j):
-    return (["ins %d" % k for k in nth_perm(n, i)] + ["reins %d" % k for k in range(1, n + 1)] +
-            ["rem %d" % k for k in nth_perm(n, j)])
+def perm_case(n, i, j, mode="sign"):
+    # same key mapping as harness and driver: multiples of 2^31 under the saturating comparator
+    key = (lambda e: (e - 3) * 2147483648) if mode == "sat" else (lambda e: e)
+    pre = [] if mode == "sign" else ["cmp " + mode]
+    return (pre + ["ins %d" % key(k) for k in nth_perm(n, i)] + ["reins %d" % key(k) for k in range(1, n + 1)] +
+            ["find %d" % key(k) for k in range(0, n + 1)] + ["rem %d" % key(k) for k in nth_perm(n, j)])
 
 
 def run_text(ck, cmd, text, timeout=3000):
@@ -82,7 +85,7 @@ def diff_kind(o1, o2, rc1):
 
 
 # ------------------------------------------------------- exhaustive orders
-def perms_exhaustive(ck, hcmd, dcmd, n, pairs=None, label=None):
+def perms_exhaustive(ck, hcmd, dcmd, n, pairs=None, label=None, mode="sign"):
     """all insertion orders x all removal orders of n keys (or, if `pairs` is given, the
     listed (i, jlo, jhi) blocks), in parallel; returns number of failing blocks"""
     F = math.factorial(n)
@@ -97,8 +100,10 @@ def perms_exhaustive(ck, hcmd, dcmd, n, pairs=None, label=None):
     jobs = [blocks[k::njobs] for k in range(njobs)]
     jobs = [j for j in jobs if j]
 
+    pre = "" if mode == "sign" else "cmp %s\n" % mode
+
     def work(job):
-        text = "".join("perms %d %d %d %d %d\n" % (n, a, b, c, d) for (a, b, c, d) in job)
+        text = pre + "".join("perms %d %d %d %d %d\n" % (n, a, b, c, d) for (a, b, c, d) in job)
         ok, (rc1, o1, e1, o2) = same(ck, hcmd, dcmd, text)
         return job, (None if ok else diff_kind(o1, o2, rc1))
 
@@ -120,17 +125,20 @@ def perms_exhaustive(ck, hcmd, dcmd, n, pairs=None, label=None):
     ck.cov["perms_cases"] = ck.cov.get("perms_cases", 0) + ncases
     ck.cov["perms_ops"] = ck.cov.get("perms_ops", 0) + ncases * 2 * n
     ck.cov.setdefault("perms_by_n", {})
-    ck.cov["perms_by_n"][str(n)] = ck.cov["perms_by_n"].get(str(n), 0) + ncases
+    tag = str(n) if mode == "sign" else "%d/%s" % (n, mode)
+    ck.cov["perms_by_n"][tag] = ck.cov["perms_by_n"].get(tag, 0) + ncases
     for job in bad:
-        locate_perm_failure(ck, hcmd, dcmd, n, job, label or ("perms n=%d" % n))
+        locate_perm_failure(ck, hcmd, dcmd, n, job, label or ("perms n=%d cmp=%s" % (n, mode)), mode)
     return len(bad_obs) + len(bad_int)
 
 
-def locate_perm_failure(ck, hcmd, dcmd, n, job, label):
+def locate_perm_failure(ck, hcmd, dcmd, n, job, label, mode="sign"):
     """bisect a failing job down to one (insertion order, removal order) pair, preferring an
     observable difference, then hand the explicit op list to compare_cases (shrink + report)"""
+    pre = "" if mode == "sign" else "cmp %s\n" % mode
+
     def kind_of(blocks):
-        text = "".join("perms %d %d %d %d %d\n" % (n, a, b, c, d) for (a, b, c, d) in blocks)
+        text = pre + "".join("perms %d %d %d %d %d\n" % (n, a, b, c, d) for (a, b, c, d) in blocks)
         ok, (rc1, o1, e1, o2) = same(ck, hcmd, dcmd, text)
         return None if ok else diff_kind(o1, o2, rc1)
 
@@ -170,7 +178,7 @@ def locate_perm_failure(ck, hcmd, dcmd, n, job, label):
             if k2 is None:
                 break
             c, want = m, k2
-    cases = [perm_case(n, i, j) for i in range(a, b) for j in range(c, d)][:64]
+    cases = [perm_case(n, i, j, mode) for i in range(a, b) for j in range(c, d)][:64]
     nf = ck.compare_cases(hcmd, dcmd, cases, label="%s insertion-order=%d removal-order=%d" % (label, a, c),
                           max_failures=1)
     if nf == 0:
@@ -253,6 +261,9 @@ def pattern_case(ins, rem, probe_every):
     for k in sorted(ins)[::stepk]:
         ops.append("reins %d" % k)
     ops.append("reins %d" % (max(ins) + 1))
+    for k in sorted(ins)[::max(1, n // 40)]:
+        ops.append("find %d" % k)
+    ops.append("find %d" % (min(ins) - 1))
     ops.append("count")
     ops.append("walk pre")
     ops.append("walk post")
@@ -264,27 +275,49 @@ def pattern_case(ins, rem, probe_every):
     return ops
 
 
-def gen_random(rng, nops, krange, stats, stride=1, offset=0, phases=((1.0, 42),)):
+class RefTree:
+    """reference contents of one tree, with O(1) random choice and removal"""
+    def __init__(self):
+        self.present, self.pos = [], {}
+
+    def add(self, k):
+        if k not in self.pos:
+            self.pos[k] = len(self.present)
+            self.present.append(k)
+
+    def drop(self, k):
+        i = self.pos.pop(k)
+        last = self.present.pop()
+        if last != k:
+            self.present[i] = last
+            self.pos[last] = i
+
+    def clear(self):
+        self.present, self.pos = [], {}
+
+
+NOCB = 2        # tree 2 is created without release callback
+
+
+def gen_random(rng, nops, krange, stats, stride=1, offset=0, phases=((1.0, 42),), mode="sign", multi=False):
     """random history; ~30 % of the inserts hit a present key and ~30 % of the removes an
-    absent one (as far as the current contents allow)"""
-    present = []        # keys in the tree (reference), with positions for O(1) removal
-    pos = {}
-    ops = []
+    absent one (as far as the current contents allow).  mode: comparator variant of the harness.
+    multi: three trees alive at once (tree 2 without release callback), ops interleaved, and a
+    present remove on one tree is often followed at once by an absent remove on another."""
+    trees = [RefTree(), RefTree(), RefTree()]
+    ops = [] if mode == "sign" else ["cmp " + mode]
 
     def key(i):
         return (i - offset) * stride
 
-    def add(k):
-        if k not in pos:
-            pos[k] = len(present)
-            present.append(k)
+    def pick_tree():
+        if not multi:
+            return 0
+        r = rng.below(4)
+        return 0 if r < 2 else r - 1
 
-    def drop(k):
-        i = pos.pop(k)
-        last = present.pop()
-        if last != k:
-            present[i] = last
-            pos[last] = i
+    def emit(t, text):
+        ops.append(text if (t == 0 and not multi) else "t%d %s" % (t, text))
 
     # phases: (fraction of the history, percentage of inserts among the 80 % mutating ops)
     sched = []
@@ -293,67 +326,109 @@ def gen_random(rng, nops, krange, stats, stride=1, offset=0, phases=((1.0, 42),)
     sched = (sched + [phases[-1][1]] * nops)[:nops]
     for p_ins in sched:
         r = rng.below(100)
+        t = pick_tree()
+        T = trees[t]
         if r < p_ins:
-            if present and rng.chance(30, 100):
-                k = rng.choice(present)
+            if T.present and rng.chance(30, 100):
+                k = rng.choice(T.present)
             else:
                 k = rng.below(krange)
-            stats["ins_dup" if k in pos else "ins_new"] += 1
-            add(k)
-            ops.append("ins %d" % key(k))
+            stats["ins_dup" if k in T.pos else "ins_new"] += 1
+            T.add(k)
+            emit(t, "ins %d" % key(k))
         elif r < 80:
-            if not present or rng.chance(30, 100):
+            if not T.present or rng.chance(30, 100):
                 k = rng.below(krange)
             else:
-                k = rng.choice(present)
-            if k in pos:
+                k = rng.choice(T.present)
+            if k in T.pos:
                 stats["rem_present"] += 1
-                drop(k)
+                T.drop(k)
+                emit(t, "rem %d" % key(k))
+                if multi and rng.chance(40, 100):
+                    # a no-op remove on ANOTHER tree right after a real one here
+                    t2 = (t + 1 + rng.below(2)) % 3
+                    k2 = rng.below(krange + 3)
+                    if k2 not in trees[t2].pos:
+                        stats["rem_absent"] += 1
+                        stats["cross_tree_absent_after_present"] += 1
+                        emit(t2, "rem %d" % key(k2))
             else:
                 stats["rem_absent"] += 1
-            ops.append("rem %d" % key(k))
+                emit(t, "rem %d" % key(k))
         elif r < 85:
             # re-insert with the node object that is linked for the key (absent key: nothing)
-            if present and rng.chance(85, 100):
-                k = rng.choice(present)
+            if T.present and rng.chance(85, 100):
+                k = rng.choice(T.present)
             else:
                 k = rng.below(krange)
-            stats["reins_present" if k in pos else "reins_absent"] += 1
-            ops.append("reins %d" % key(k))
+            stats["reins_present" if k in T.pos else "reins_absent"] += 1
+            emit(t, "reins %d" % key(k))
         elif r < 90:
-            ops.append("find %d" % key(rng.below(krange)))
+            if T.present and rng.chance(50, 100):
+                k = rng.choice(T.present)
+            else:
+                k = rng.below(krange)
+            emit(t, "find %d" % key(k))
             stats["find"] += 1
         elif r < 96:
-            ops.append("walk " + rng.choice(["in", "pre", "post"]))
+            emit(t, "walk " + rng.choice(["in", "pre", "post"]))
             stats["walk"] += 1
-        elif r < 99 or nops > 200:
-            ops.append("count")
+        elif r < 99 or nops > 200 or (t == NOCB and T.present):
+            # (aatree_destroy on a non-empty tree without callback would call NULL: not exercised)
+            emit(t, "count")
             stats["count"] += 1
         else:
-            ops.append("destroy")
+            emit(t, "destroy")
             stats["destroy"] += 1
-            present, pos = [], {}
-        stats["max_size"] = max(stats["max_size"], len(present))
-    ops.append("walk in")
-    ops.append("destroy")
-    stats["destroy"] += 1
+            T.clear()
+        stats["max_size"] = max(stats["max_size"], len(T.present))
+    for t in ((0, 1, 2) if multi else (0,)):
+        emit(t, "walk in")
+        if t == NOCB:
+            for k in sorted(trees[t].present):
+                emit(t, "rem %d" % key(k))
+        emit(t, "destroy")
+        stats["destroy"] += 1
+    stats["mode_" + mode] += 1
+    stats["multi_tree_cases"] += 1 if multi else 0
     return ops
+
+
+def key_plan(rng, mode, krange):
+    """(stride, offset) making the keys meaningful for the comparator variant"""
+    if mode == "diff":          # |key| < 2^30
+        stride = rng.choice([1, 1, 7, (1 << 29) // max(1, krange)])
+        return max(1, stride), krange // 2
+    if mode == "sat":           # far-apart keys: differences of exactly 2^31 (INT_MIN), 2^31-1 (INT_MAX), more
+        return rng.choice([1 << 31, (1 << 31) - 1, 1 << 31, 1 << 30, 3 << 30, 10 ** 15, 1]), krange // 2
+    return rng.choice([1, 1, 7, 10 ** 15]), rng.choice([0, 5, 12])
 
 
 def random_cases(ck, rng, stats, mult=1):
     cases = []
+    modes = ["sign", "sign", "diff", "sat", "sat"]
     # many small histories (dense key space: lots of collisions, shapes of height 1-4)
     for _ in range(mult * ck.scale(1500, 20000)):
-        cases.append(gen_random(rng, 10 + rng.below(60), 4 + rng.below(20), stats,
-                                stride=rng.choice([1, 1, 7, 10 ** 15]), offset=rng.choice([0, 5, 12])))
+        mode = rng.choice(modes)
+        krange = 4 + rng.below(20)
+        stride, offset = key_plan(rng, mode, krange)
+        cases.append(gen_random(rng, 10 + rng.below(60), krange, stats, stride=stride, offset=offset,
+                                mode=mode, multi=rng.chance(1, 2)))
     # medium
     for _ in range(mult * ck.scale(60, 600)):
-        cases.append(gen_random(rng, 300 + rng.below(500), 50 + rng.below(300), stats,
-                                stride=rng.choice([1, 3]), offset=rng.choice([0, 100])))
+        mode = rng.choice(modes)
+        krange = 50 + rng.below(300)
+        stride, offset = key_plan(rng, mode, krange)
+        cases.append(gen_random(rng, 300 + rng.below(500), krange, stats, stride=stride, offset=offset,
+                                mode=mode, multi=rng.chance(1, 2)))
     # large
     for idx in range(mult * ck.scale(4, 8)):
         n = ck.scale(2000, 10000 if idx % 2 == 0 else 4000)
-        cases.append(gen_random(rng, 3 * n, 2 * n, stats, phases=((0.6, 76), (0.4, 8))))
+        mode = ["sign", "sat", "diff", "sign"][idx % 4]
+        stride, offset = key_plan(rng, mode, 2 * n)
+        cases.append(gen_random(rng, 3 * n, 2 * n, stats, stride=stride, offset=offset,
+                                phases=((0.6, 76), (0.4, 8)), mode=mode, multi=(idx % 2 == 1)))
     return cases
 
 
@@ -386,13 +461,16 @@ def run(ck):
         "n=8 sampled blocks; after each insertion order every key is inserted again with its own linked node "
         "object), executed inside harness and driver and compared by hash of all per-op output "
         "lines, each pair is one distinct case; (2) ascending/descending/alternating insertion x "
-        "ascending/descending/alternating/inside-out removal runs of N keys; (3) random histories (small dense, "
+        "ascending/descending/alternating/inside-out removal runs of N keys; (3) random histories over up to three trees alive at once (one without release callback), under "
+        "three comparator variants incl. one returning exactly INT_MIN/INT_MAX for far-apart keys (small dense, "
         "medium, large) with ~30% no-op inserts/removes, re-inserts of a present key with a fresh node AND with "
         "the node object already linked for it, finds, 3 walk orders, count, destroy. A case is "
         "non-trivial when it links at least one node; distinct = distinct op sequence (hashed).")
     ck.assumptions += [
-        "release_cb is non-NULL (aatree_destroy calls it unconditionally) and frees/poisons the node",
-        "node_cmp is a consistent comparator (strict total order, 0 only for equal keys); harness: integer order",
+        "aatree_destroy is only called on a tree without release callback when that tree is empty (it calls the "
+        "callback unconditionally; fixes/F31 is the optional repair); trees 0/1 have a callback that frees the node",
+        "node_cmp is a consistent comparator (strict total order, 0 only for equal keys); harness: integer order "
+        "realised three ways (sign only, plain difference, difference saturated to INT_MIN/INT_MAX)",
         "the caller's node carries the key passed as `value` and is not already linked elsewhere",
         "single-threaded use; int count does not overflow (n < 2^31)",
         "pointer-level aliasing beyond the NIL sentinel is not modelled (ASan watches the real pointers)",
@@ -411,6 +489,13 @@ def run(ck):
         perms_exhaustive(ck, hcmd if n <= 6 else ck.fast_harness, dcmd, n)
         if found_concrete(ck):
             return finish_counts(ck)
+    # the same enumeration under the other comparator variants (saturating: keys 2^31 apart, so
+    # that the comparator returns exactly INT_MIN / INT_MAX; plain difference)
+    for mode, nm in (("sat", ck.scale(5, 6)), ("diff", ck.scale(4, 5))):
+        for n in range(1, nm + 1):
+            perms_exhaustive(ck, hcmd, dcmd, n, mode=mode)
+            if found_concrete(ck):
+                return finish_counts(ck)
     ck.cov["exhaustive_subspace"] = "all insertion orders x all removal orders of n keys, n = 1..%d" % nmax
     if not ck.quick():
         # n = 8: every insertion order against 6 removal orders drawn per block, and every
@@ -441,6 +526,12 @@ def run(ck):
             if N > 5000 and name not in ("asc/asc", "asc/desc", "desc/asc", "desc/alt", "alt/inner", "alt/asc"):
                 continue
             pcases.append(pattern_case(ins, rem, 0 if N > 300 else 3))
+            if N <= 100:        # far-apart keys under the saturating comparator
+                f = lambda k: (k - N // 2) * 2147483648
+                pcases.append(["cmp sat"] + pattern_case([f(k) for k in ins], [f(k) for k in rem], 3))
+            if 100 < N <= 255:  # plain-difference comparator, |key| < 2^30
+                f = lambda k: (k - N // 2) * 4194304
+                pcases.append(["cmp diff"] + pattern_case([f(k) for k in ins], [f(k) for k in rem], 3))
     # biggest first so that the pool stays busy
     pcases.sort(key=len, reverse=True)
     run_cases_parallel(ck, hcmd, dcmd, pcases, "runs", chunk=1)
@@ -454,7 +545,8 @@ def run(ck):
 
     # 3. random histories
     stats = {k: 0 for k in ("ins_new", "ins_dup", "rem_present", "rem_absent", "reins_present", "reins_absent",
-                            "find", "walk", "count",
+                            "cross_tree_absent_after_present", "mode_sign", "mode_diff", "mode_sat",
+                            "multi_tree_cases", "find", "walk", "count",
                             "destroy", "max_size")}
     t0 = time.time()
     rcases = random_cases(ck, rng, stats)
